@@ -380,6 +380,8 @@ def qpois(q, mu=1.0, log=False):
     See
     https://stat.ethz.ch/R-manual/R-patched/library/stats/html/Poisson.html
     '''
+    if log:
+        q = np.exp(q)
     return st.poisson.ppf(q, mu=mu)
 
 def rpois(n, mu=1.0, seed=None):
